@@ -36,7 +36,7 @@ impl Stream {
 
 pub fn stream_event(id: usize, s: &Stream, bytes_len: usize) -> Value {
     json!({"e": "stream", "id": id, "name": s.name, "limit": s.limit, "len": bytes_len,
-        "tail": s.tail.len(),
+        "tail": s.tail.len(), "strict": s.name.starts_with("tflip"),
         "frames": s.frames.iter().map(|f| f.header_json()).collect::<Vec<_>>()})
 }
 
@@ -55,6 +55,7 @@ pub fn run_universe(bytes: &[u8], seg: &[usize], limit: u32, u: usize, out: &mut
     let mut all_resp: Vec<u8> = Vec::new();
     let mut closed = false;
     let mut panicked = false;
+    let mut stalls = 0usize;
     let mut chunks: Vec<usize> = seg.to_vec();
     let total: usize = chunks.iter().sum();
     if total < bytes.len() {
@@ -126,6 +127,15 @@ pub fn run_universe(bytes: &[u8], seg: &[usize], limit: u32, u: usize, out: &mut
                     }
                     writeln!(out, "{}", ev).unwrap();
                     events += 1;
+                    // a decoder that hands out frames without taking bytes would go on forever: the events so far show it
+                    // (frame at the wrong position); the universe ends here
+                    if outc == "frame" && before == buf.len() {
+                        stalls += 1;
+                        if stalls > 3 {
+                            closed = true;
+                            break 'outer;
+                        }
+                    }
                     match outc {
                         "frame" => {
                             // quit / quitq end the connection loop (client_handler.rs); nothing behind them is decoded
